@@ -73,6 +73,13 @@ LowerOf(tab, r) == IF r >= 65 /\ r <= 90 THEN r + 32
                         THEN (CHOOSE p \in {tab[i] : i \in 1..Len(tab)} : p[1] = r)[2]
                         ELSE r
 
+(* the case forms of r (unicode.SimpleFold orbit): a row of the table is <<r, lower, other forms...>>; without a   *)
+(* row an ASCII letter has its two forms and any other rune only itself                                          *)
+Orbit(tab, r) == IF \E i \in 1..Len(tab) : tab[i][1] = r
+                 THEN LET row == CHOOSE p \in {tab[i] : i \in 1..Len(tab)} : p[1] = r IN {row[j] : j \in 1..Len(row)}
+                 ELSE IF r >= 65 /\ r <= 90 THEN {r, r + 32} ELSE IF r >= 97 /\ r <= 122 THEN {r, r - 32} ELSE {r}
+SeqHas(sq, x) == \E j \in 1..Len(sq) : sq[j] = x
+
 (************************** threaded context *******************************)
 Store0 == [x |-> -1, y |-> -1, cl |-> <<>>]
 X0 == [pos |-> 0, env |-> <<>>, store |-> Store0, g |-> 0, log |-> <<>>, errs |-> <<>>,
@@ -112,7 +119,9 @@ InClass(C, n, r) ==
       mem(m) == IF n.ic THEN LowerOf(C.lower, m) ELSE m IN
   \/ \E i \in 1..Len(n.s) : mem(n.s[i]) = rr
   \/ \E i \in 1..(Len(n.rng) \div 2) : mem(n.rng[2*i-1]) <= rr /\ rr <= mem(n.rng[2*i])
-  \/ \E i \in 1..Len(n.ucl) : r \in C.uclass[n.ucl[i]] \/ rr \in C.uclass[n.ucl[i]]
+  \* a Unicode class has no lower-cased spelling: case-insensitively a rune is a member when one of its case forms is
+  \/ \E i \in 1..Len(n.ucl) : IF n.ic THEN \E f \in Orbit(C.lower, r) : SeqHas(C.uclass[n.ucl[i]], f)
+                                ELSE SeqHas(C.uclass[n.ucl[i]], r)
 
 (* an iteration that succeeded without consuming and without changing any  *)
 (* store repeats identically for ever (64 iterations without consuming are *)
